@@ -39,8 +39,9 @@ def K1(vc):
     })
     etype = vc.enum('type', [None, 'ADDED', 'MODIFIED', 'DELETED'])
     body = object()
-    old = vc.enum('old', [None, {'spec': 1}])       # only None-ness is inspected; identity must pass through
-    new = vc.enum('new', [None, {'spec': 2}])
+    # stored/built essences: absent (None), EMPTY (an object with no spec/labels: falsy but stored!), non-empty
+    old = vc.enum('old', [None, {}, {'spec': 1}])
+    new = vc.enum('new', [None, {}, {'spec': 2}])
     diff_kind = vc.enum('diff', ['none', 'empty', 'nonempty'])
     diff = {'none': None, 'empty': (), 'nonempty': (('change', ('spec',), 1, 2),)}[diff_kind]
     initial = vc.bool('initial')
